@@ -3,9 +3,12 @@
 use serde_json::{json, Value as J};
 use std::panic::{catch_unwind, AssertUnwindSafe};
 use std::str::FromStr;
-use std::sync::Mutex;
 
-pub static LAST_PANIC: Mutex<Option<(String, String, u32)>> = Mutex::new(None);
+thread_local! {
+    // per thread: the hook runs on the panicking thread, and `guarded` reads it back on that same thread
+    // (a process-wide slot let concurrent panics of other threads take each other's message)
+    pub static LAST_PANIC: std::cell::RefCell<Option<(String, String, u32)>> = const { std::cell::RefCell::new(None) };
+}
 
 pub fn install_panic_hook() {
     std::panic::set_hook(Box::new(|info| {
@@ -20,9 +23,7 @@ pub fn install_panic_hook() {
             .location()
             .map(|l| (l.file().to_string(), l.line()))
             .unwrap_or_default();
-        if let Ok(mut g) = LAST_PANIC.lock() {
-            *g = Some((msg, file, line));
-        }
+        LAST_PANIC.with(|g| *g.borrow_mut() = Some((msg, file, line)));
     }));
 }
 
@@ -37,11 +38,7 @@ pub fn guarded<T>(f: impl FnOnce() -> Result<T, prqlc::ErrorMessages>) -> Outcom
         Ok(Ok(v)) => Outcome::Ok(v),
         Ok(Err(e)) => Outcome::Err(e),
         Err(_) => {
-            let (msg, file, line) = LAST_PANIC
-                .lock()
-                .ok()
-                .and_then(|mut g| g.take())
-                .unwrap_or_default();
+            let (msg, file, line) = LAST_PANIC.with(|g| g.borrow_mut().take()).unwrap_or_default();
             // make the path stable across checkouts
             let file = file
                 .rsplit_once("prqlc/prqlc/src/")
